@@ -22,13 +22,34 @@ def run_kani_property(prop, tier, units, assumptions=(), samples=(), not_decided
         only = None
         if row_filter:
             only = row_filter(u, tier)
-        try:
-            res = kx.verify_unit(u, only=only, jobs=jobs)
-        except kx.Undecided as e:
-            rep.undecide('[%s] %s' % (u, str(e)[:1500]))
-            continue
-        except Exception as e:
-            rep.undecide('[%s] kx failed: %s' % (u, str(e)[:800]))
+        # a filter may return several passes [dict(only=set, jobs=n, timeout=s)]: cheap rows at full parallelism, then the
+        # memory-hungry rows a few at a time; their results are merged
+        passes = only if isinstance(only, list) else [dict(only=only, jobs=jobs, timeout=3600)]
+        res = None
+        failed = False
+        for ps in passes:
+            if ps['only'] is not None and not ps['only']:
+                continue
+            try:
+                r1 = kx.verify_unit(u, only=ps['only'], jobs=ps.get('jobs', jobs), timeout=ps.get('timeout', 3600))
+            except kx.Undecided as e:
+                rep.undecide('[%s] %s' % (u, str(e)[:1500]))
+                failed = True
+                continue
+            except Exception as e:
+                rep.undecide('[%s] kx failed: %s' % (u, str(e)[:800]))
+                failed = True
+                continue
+            if res is None:
+                res = r1
+            else:
+                res['rows'] = list(res['rows']) + list(r1['rows'])
+                res['per_row'].update(r1['per_row'])
+                res['kani_wall_s'] = round(res['kani_wall_s'] + r1['kani_wall_s'], 1)
+                res['solver_time_s'] = round(res['solver_time_s'] + r1['solver_time_s'], 1)
+                res['checks_total'] += r1['checks_total']
+                res['kani_cmd'] += ' ; ' + r1['kani_cmd']
+        if res is None:
             continue
         cov['checker_cmd'] = (cov['checker_cmd'] + ' ; ' if cov['checker_cmd'] else '') + res['kani_cmd']
         unit_info = dict(unit=u, rows=len(res['rows']), kani_wall_s=res['kani_wall_s'], solver_time_s=res['solver_time_s'],
